@@ -104,10 +104,12 @@ CLAIMS = {
         "coroutine is executed for each of the 13 request kinds with a symbolic room, every allowed-room set over {R1,R2,R3}, symbolic bound key and conn_ready; every call "
         "into GraphDatabaseService and every reply is an observable event: a data access naming room r implies r is allowed (and is the room that was checked), the room list "
         "needs a bound key and conn_ready, the fingerprint goes only to the own key, a refused request is answered with success = false. (c) The first poll segments of "
-        "LocalPeerService::process_local_event: a room is admitted on a definition change only for a key that is an enabled member at that time. Sampled paths and "
-        "counterexamples are replayed natively: process_inbound against a real GraphDatabaseService, process_local_event through its real async fn.",
-   note="Only the code up to the first suspension of each handler is executed (every arm awaits the database); the SQL row filters by room behind the arms and the "
-        "maintenance of allowed_room across several events (no revocation while connected) are outside the claim. tokio Mutex::lock is modelled uncontended.",
+        "LocalPeerService::process_local_event: a room is admitted on a definition change only for a key that is an enabled member at that time, and for a key that is "
+        "no longer a member (former member) the room is revoked for the connection. Sampled paths and counterexamples are replayed natively: process_inbound against a "
+        "real GraphDatabaseService, process_local_event through its real async fn, and the revocation on the real InboundQueryService task (a RoomNode request "
+        "before and after the definition change).",
+   note="Only the code up to the first suspension of each handler is executed (every arm awaits the database); the SQL row filters by room behind the arms are outside the "
+        "claim; the maintenance of allowed_room is covered for single events only (admission, revocation), not for sequences of events. tokio Mutex::lock is modelled uncontended.",
    design='DESIGN.md §3 C08'),
  'C03': dict(
    level='model_checking',
